@@ -170,6 +170,66 @@ def contrast_leg(ctx: Ctx, maxn: int):
             ctx.violation({k: b[k] for k in ("formula", "fid", "path", "output", "materializer", "full_rank", "na", "cluster")}, b, kind="replay")
 
 
+# ------------------------------------------------------------------ transforms whose values are not exact: agreement relation
+def replay_agreement(job):
+    """The specification's result does not depend on entry point, output or materializer; for transforms the exact models do not
+    cover (splines, scale, poly, lag, hashed, elementwise functions) that independence is checked as a relation: every
+    combination must reproduce the matrix of the first one."""
+    import random
+    import warnings
+
+    import numpy
+    import pandas
+
+    i, formula, seed = job
+    rng = random.Random(seed)
+    n = rng.randint(6, 10)
+    df = pandas.DataFrame({"a": [round(rng.uniform(-3, 3), 2) for _ in range(n)], "b": [round(rng.uniform(0.5, 5), 2) for _ in range(n)],
+                           "A": pandas.Series([["x", "y", "z"][j % 3] for j in range(n)], dtype=object)})
+    if rng.random() < 0.5:
+        df.loc[rng.randrange(n), "b"] = float("nan")
+    tb = matlib.arrow_table(df, nan_not_null=bool(seed % 2))
+    ref, bad, cnt = None, [], 0
+    for path, output, mat in ALL:
+        if path in ("attached", "sugar-attached", "materializer-reused") and output != "numpy":
+            continue
+        cnt += 1
+        base = {"formula": formula, "fid": f"random-{seed}", "path": path, "output": output, "materializer": mat, "full_rank": True, "na": "drop", "cluster": False}
+        try:
+            with warnings.catch_warnings():
+                warnings.simplefilter("ignore")
+                mm = build(formula, tb if mat == "narwhals-arrow" else df, path, output, mat, {"full_rank": True, "na": "drop", "cluster": False})
+            arr = mm.toarray() if hasattr(mm, "toarray") else numpy.asarray(mm, dtype=float)
+            got = (list(mm.model_spec.column_names), arr)
+        except Exception as e:  # noqa
+            got = ("EXC", type(e).__name__ + ": " + str(e)[:150])
+        if ref is None:
+            ref = got
+            if got[0] == "EXC":
+                return [{**base, "why": "agreement: the reference combination fails", "observed": got[1]}], cnt
+            continue
+        if got[0] == "EXC":
+            bad.append({**base, "why": "agreement: fails where the reference combination succeeds", "observed": got[1]})
+        elif got[0] != ref[0] or got[1].shape != ref[1].shape or not numpy.allclose(got[1], ref[1], rtol=1e-10, atol=1e-12, equal_nan=True):
+            bad.append({**base, "why": "agreement: matrix differs from the reference combination", "observed": [got[0], got[1].tolist()[:3]], "expected": [ref[0], ref[1].tolist()[:3]]})
+    return bad, cnt
+
+
+def agreement_leg(ctx: Ctx, per: int):
+    from .c04 import INEXACT
+
+    forms = INEXACT + ["lag(a, 2) + b", "hashed(A, levels=5)", "log(b) + exp10(a)", "cs(a, df=4)", "bs(a, df=4, extrapolation='clip')", "C(A, contr.poly):scale(a)"]
+    jobs = [(k + 1, f, 7919 * ctx.seed + 13 * k + r) for k, f in enumerate(forms) for r in range(per)]
+    res = pmap("harness.props.c05", "replay_agreement", jobs, chunk=2)
+    for (k, f, sd), (bad, n) in zip(jobs, res):
+        ctx.traces += n
+        ctx.evaluations += n
+        ctx.nontrivial.add(jhash(["agreement", f, sd]))
+        for b in bad:
+            ctx.violation({kk: b[kk] for kk in ("formula", "fid", "path", "output", "materializer", "full_rank", "na", "cluster")}, b, kind="relation")
+    ctx.require("agreement relation: executed combinations", sum(n for _, n in res), 500)
+
+
 # ------------------------------------------------------------------ structured formulas with missing data (MC_Missing)
 STRUCTURED = {4: "b ~ a", 5: "b ~ A | a", 8: "a ~ 0 | A", 9: "a | 0 + b", 13: "b ~ 0 + C(A, contr.sum) | C(A, contr.sum) + a",
               14: "C(A, contr.helmert) | 0 + C(A, contr.helmert) + C(A, contr.helmert):b", 15: "b ~ A + A:a | a + A:a", 16: "a + A:a | 0 + A:a | A + A:a"}
@@ -413,6 +473,7 @@ def run(ctx: Ctx) -> None:
     contrast_leg(ctx, 4 if ctx.quick else 6)
     registry_leg(ctx, 4 if ctx.quick else 5)
     structured_leg(ctx, 1 if ctx.quick else 2)
+    agreement_leg(ctx, 1 if ctx.quick else 6)
     # leg T: random cases on random (entry point, output, materializer) combinations, validated by TLC
     from .. import mattrace
 
